@@ -171,6 +171,61 @@ theorem cLoadText_split (h : CHyph) (t1 t2 : List Char) (w : Char) (hw : isWs w 
     cLoadText (cLoadText h t1) t2 = cLoadText h (t1 ++ w :: t2) := by
   simp only [cLoadText, splitWs_append t1 t2 [] w hw, List.foldl_append]
 
+/-! ### Restricting a large pattern set to the patterns that can match -/
+
+theorem isInfix_of_prefix_drop (a w : List Char) (o : Nat)
+    (h : a.isPrefixOf (w.drop o) = true) (hne : a ≠ []) : isInfix a w = true := by
+  induction w generalizing o with
+  | nil =>
+    simp at h
+    cases a with
+    | nil => exact absurd rfl hne
+    | cons x xs => simp [List.isPrefixOf] at h
+  | cons c cs ih =>
+    simp only [isInfix, Bool.or_eq_true]
+    cases o with
+    | zero => left; simpa using h
+    | succ o => right; exact ih o (by simpa using h)
+
+theorem matchesAt_false_of_not_infix (p : Pat) (w : List Char) (o : Nat)
+    (h : isInfix p.letters w = false) : matchesAt p w o = false := by
+  cases hm : matchesAt p w o with
+  | false => rfl
+  | true =>
+    exfalso
+    unfold matchesAt at hm
+    simp only [Bool.and_eq_true, decide_eq_true_eq] at hm
+    have := isInfix_of_prefix_drop p.letters w o hm.1.1.2 hm.1.1.1
+    rw [h] at this; cases this
+
+theorem maxOver_zero {α : Type} (l : List α) (f : α → Nat) (h : ∀ x ∈ l, f x = 0) :
+    maxOver l f = 0 := by
+  induction l with
+  | nil => rfl
+  | cons a l ih =>
+    have h1 : maxOver (a :: l) f = max (f a) (maxOver l f) := rfl
+    rw [h1, h a (by simp), ih (fun x hx => h x (by simp [hx]))]; rfl
+
+theorem liangAt_filter (ps : List Pat) (q : Pat → Bool) (w : List Char) (i : Nat)
+    (h : ∀ p ∈ ps, q p = false → ∀ o, matchesAt p w o = false) :
+    liangAt (ps.filter q) w i = liangAt ps w i := by
+  unfold liangAt
+  induction ps with
+  | nil => rfl
+  | cons p ps ih =>
+    have ih' := ih (fun x hx => h x (by simp [hx]))
+    have hc : ∀ (l : List Pat) (f : Pat → Nat), maxOver (p :: l) f = max (f p) (maxOver l f) :=
+      fun _ _ => rfl
+    cases hq : q p with
+    | true => simp only [List.filter_cons, hq, if_true, hc, ih']
+    | false =>
+      simp only [List.filter_cons, hq, Bool.false_eq_true, if_false, hc, ih']
+      have : maxOver (List.range (w.length + 1)) (fun o => contrib p w o i) = 0 := by
+        apply maxOver_zero
+        intro o _
+        simp [contrib, h p (by simp) hq o]
+      rw [this, Nat.zero_max]
+
 /-! ### Histories -/
 
 def Op.isQuery : Op → Bool
